@@ -170,9 +170,12 @@ fn exec_step(rep: usize, gi: usize, t: usize, s: &Value, slots: &Mutex<Vec<Optio
                     h.x = s["x"].as_i64().unwrap_or(0);
                     h.flag = s["flag"].as_bool().unwrap_or(false);
                     h.who = s["who"].as_str().unwrap_or("alice").to_string();
-                    let who = match h.who.as_str() {
-                        "bob" => fsites::Who::Name("bob"),
-                        _ => fsites::Who::Name("alice"),
+                    let nested = s["nested"].as_bool().unwrap_or(false);
+                    let who = match (h.who.as_str(), nested) {
+                        ("bob", false) => fsites::Who::Name("bob"),
+                        ("bob", true) => fsites::Who::Nested("bob"),
+                        (_, false) => fsites::Who::Name("alice"),
+                        (_, true) => fsites::Who::Nested("alice"),
                     };
                     fsites::make(h.fsite, h.x, h.flag, uid, &who)
                 } else {
@@ -325,7 +328,7 @@ impl Engine for DirectiveEngine {
         m
     }
     fn rule(&self, _p: &str) -> String {
-        "per run: <=8 directives from the documented grammar (shared target prefixes, duplicates and conflicts in any order, bare level / bare target, level names in any case or as digits, span names, field value matchers for int/bool and a pattern matcher on a Debug-valued field; fault: that field's Debug impl panics, caught) and a well-nested enter/exit/record history over named spans with typed fields, pool spans and pool events on 1-2 threads, executed under four replica collectors (Targets, EnvFilter, EnvFilter re-parsed from Display, EnvFilter as per-layer filter); a quarter of the runs with span-scoped directives instead race two threads (each with its own spans) on one EnvFilter under seeded schedules, contending its callsite/span matcher tables and first hits of shared callsites; non-trivial = at least one emission enabled only by a span-scoped directive and one suppressed after the span was exited, or (static sets) at least one emission decided by a longest-prefix tie-break; distinct = distinct plan digest".into()
+        "per run: <=8 directives from the documented grammar (shared target prefixes, duplicates and conflicts in any order, bare level / bare target, level names in any case or as digits, span names, field value matchers for int/bool and a pattern matcher on a Debug-valued field; fault: that field's Debug impl panics, caught) and a well-nested enter/exit/record history over named spans with typed fields, pool spans and pool events on 1-2 threads, executed under four replica collectors (Targets, EnvFilter, EnvFilter re-parsed from Display, EnvFilter as per-layer filter); a quarter of the runs with span-scoped directives instead race two threads (each with its own spans) on one EnvFilter under seeded schedules, contending its callsite/span matcher tables and first hits of shared callsites (a third of those with the filter as the process-wide default and field values whose Debug impl creates a span of its own while the filter matches them); non-trivial = at least one emission enabled only by a span-scoped directive and one suppressed after the span was exited, or (static sets) at least one emission decided by a longest-prefix tie-break; distinct = distinct plan digest".into()
     }
     fn components(&self) -> Value {
         json!({"real": ["tracing_subscriber::filter::Targets (FromStr, would_enable, Subscribe)", "EnvFilter (Builder::parse, Display, Subscribe and Filter impls, by_cs/by_id/scope)", "Registry, Filtered", "tracing macros"], "stub": ["recording layer"]})
@@ -452,7 +455,19 @@ impl Engine for DirectiveEngine {
                 });
             }
             let sched = Sched::swarm(&mut rng, 400);
-            return json!({"engine": "directive", "prop": g.prop, "mode": g.mode, "cfg": {"dirs": dirs, "threads": 2}, "steps": st, "sched": serde_json::to_value(&sched).unwrap()});
+            // a third of the race runs install the EnvFilter replica as the process-wide default (each run is its own
+            // process) instead of a scoped default per thread - no re-entry guard between a callback and an emission
+            // made from inside it - and let some `who` values create a span of their own in their Debug impl, which
+            // runs while the filter matches the new span's fields (drawn last: the rest of the plan is unchanged)
+            let global = rng.chance(1, 3);
+            if global {
+                for s in st.iter_mut() {
+                    if s["op"] == "fspan" && rng.chance(1, 2) {
+                        s["nested"] = json!(true);
+                    }
+                }
+            }
+            return json!({"engine": "directive", "prop": g.prop, "mode": g.mode, "cfg": {"dirs": dirs, "threads": 2, "global": global}, "steps": st, "sched": serde_json::to_value(&sched).unwrap(), "hang_is_violation": global});
         }
         let sched = Sched::op_order(rng.next_u64());
         json!({"engine": "directive", "prop": g.prop, "mode": g.mode, "cfg": {"dirs": dirs, "threads": nthreads}, "steps": steps, "sched": serde_json::to_value(&sched).unwrap()})
@@ -481,6 +496,7 @@ impl Engine for DirectiveEngine {
         // while F18 is open, must-hold runs compare Targets only on strings without span/field syntax
         let with_targets = plan["mode"] == "probe:F18" || !finding_open("F18") || !dirs.iter().any(is_span_scoped);
         let sync = sched.sync;
+        let global = plan["cfg"]["global"].as_bool().unwrap_or(false);
         let body = move || {
             let reps = match build_replicas(&text2, with_targets) {
                 Ok(r) => r,
@@ -501,11 +517,15 @@ impl Engine for DirectiveEngine {
                     Some(r) => r.dispatch.clone(),
                     None => return,
                 };
+                if global && dispatch::set_global_default(rep.clone()).is_err() {
+                    violation("harness", "a process-wide default was already set in this child process");
+                    return;
+                }
                 let race_body = {
                     let all_slots = all_slots.clone();
                     let rep = rep.clone();
                     move |t: usize, mine: Vec<(usize, Value)>| {
-                        let _g = dispatch::set_default(&rep);
+                        let _g = if global { None } else { Some(dispatch::set_default(&rep)) };
                         let mut entered = vec![];
                         for (gi, s) in &mine {
                             detsim::op_boundary("op");
@@ -529,7 +549,11 @@ impl Engine for DirectiveEngine {
                     detsim::join(id);
                 }
                 let taken: Vec<Option<SlotE>> = all_slots[1].lock().unwrap().drain(..).collect();
-                dispatch::with_default(&rep, || drop(taken));
+                if global {
+                    drop(taken);
+                } else {
+                    dispatch::with_default(&rep, || drop(taken));
+                }
                 return;
             }
             let run = {
